@@ -4,6 +4,7 @@ id=$1; shift
 cd /repo && git status --porcelain | grep -q . && { echo "repo not clean"; exit 9; }
 git apply /verif/benign/$id/patch.diff || { echo "$id: patch does not apply"; exit 9; }
 cd /verif
+export VERIF_EVIDENCE_DIR=/tmp/seed-evidence   # evidence of a run against a patched tree is not evidence about /repo
 for c in "$@"; do
   out=$(./check $c --tier quick 2>&1); rc=$?
   echo "  $id vs $c: exit $rc $(echo "$out" | grep -E "^C[0-9]+:" | sed 's/.*jobs complete, //')"
